@@ -3,6 +3,7 @@
 # usage: selftest/seedsweep.sh [N] [budget_seconds]
 N=${1:-20}; B=${2:-6}
 cd "$(dirname "$0")/.."
+export VERIF_EVIDENCE_DIR="$PWD/build/sweep-evidence"   # the sweep never replaces the committed evidence
 fail=0
 for s in $(seq 1 $N); do
   seed=$((s * 7919 + 13))
